@@ -1,9 +1,132 @@
 import Driver.Util
-open Lean
+import NixModel.Pure.Dim
+open Lean Nix.Dim
 
+/-!
+Line protocol of the C07 model (one JSON array per line). Rationals travel as `"num/den"` strings,
+integers as JSON integers, a missing value as `null`.
+
+  ["sampled_index_of", off|null, si, pos, mode]            → {"ok": int} | {"err": …}
+  ["sampled_range_indices", off|null, si, s, e, smode]     → {"ok": [a, b] | null} | {"err": …}
+  ["sampled_position_at", off|null, si, index]             → {"ok": "n/d"}
+  ["sampled_axis", off|null, si, count, start|null, startpos|null] → {"ok": ["n/d", …]} | {"err": …}
+  ["range_index_of", [tick…], pos, mode]                   ["range_range_indices", [tick…], s, e, smode]
+  ["range_tick_at", [tick…], index]                        ["range_axis", [tick…], count, start]
+  ["set_index_of", n, pos, mode]                           ["set_range_indices", n, s, e, smode]
+
+`mode` is an `IndexMode` member name (aliases accepted; anything else is "not a member"), `smode`
+is "Exclusive" or "Inclusive" (anything else: `ValueError`, as the code's first test).
+-/
 namespace Driver.C07
 
-/-- stub: replaced when the model of C07 is built -/
-def main : IO Unit := pureLoop fun _ => bad "C07: model driver not built yet"
+def parseRat (s : String) : Option Rat :=
+  match s.splitOn "/" with
+  | [n, d] =>
+    match n.toInt?, d.toNat? with
+    | some n, some d => if d = 0 then none else some ((n : Rat) / (d : Rat))
+    | _, _ => none
+  | [n] => n.toInt?.map fun n => (n : Rat)
+  | _ => none
+
+def jRat? (j : Json) : Option Rat :=
+  match j with
+  | .str s => parseRat s
+  | _ => (jInt? j).map fun i => (i : Rat)
+
+/-- offset attribute: `self.offset if self.offset else 0` -/
+def jOff? (j : Json) : Option Rat := if isNull j then some 0 else jRat? j
+
+def jRats? (j : Json) : Option (List Rat) :=
+  match j with
+  | .arr a => a.toList.mapM jRat?
+  | _ => none
+
+def jOptInt? (j : Json) : Option (Option Int) := if isNull j then some none else (jInt? j).map some
+def jOptRat? (j : Json) : Option (Option Rat) := if isNull j then some none else (jRat? j).map some
+
+def jMode (j : Json) : IndexMode := IndexMode.ofName (jStr j)
+
+def jSlice? (j : Json) : Option SliceMode :=
+  match j with
+  | .str "Exclusive" => some .exclusive
+  | .str "Inclusive" => some .inclusive
+  | _ => none
+
+def outInt (r : Except Nix.Err Int) : Json :=
+  match r with
+  | .ok i => ok (Json.num (JsonNumber.fromInt i))
+  | .error e => err e
+
+def outPair (r : Except Nix.Err (Option (Int × Int))) : Json :=
+  match r with
+  | .ok none => ok Json.null
+  | .ok (some (a, b)) => ok (Json.arr #[Json.num (JsonNumber.fromInt a), Json.num (JsonNumber.fromInt b)])
+  | .error e => err e
+
+def outRat (r : Except Nix.Err Rat) : Json :=
+  match r with
+  | .ok x => ok (Json.str (ratStr x))
+  | .error e => err e
+
+def outRats (r : Except Nix.Err (List Rat)) : Json :=
+  match r with
+  | .ok l => ok (Json.arr (l.map fun x => Json.str (ratStr x)).toArray)
+  | .error e => err e
+
+def handle (j : Json) : Json :=
+  match jArr j |>.toList with
+  | [Json.str "sampled_index_of", off, si, pos, mode] =>
+    match jOff? off, jRat? si, jRat? pos with
+    | some off, some si, some pos => outInt (sampledIndexOf off si pos (jMode mode))
+    | _, _, _ => bad "C07: sampled_index_of arguments"
+  | [Json.str "sampled_range_indices", off, si, s, e, sm] =>
+    match jOff? off, jRat? si, jRat? s, jRat? e with
+    | some off, some si, some s, some e =>
+      match jSlice? sm with
+      | some sm => outPair (sampledRangeIndices off si s e sm)
+      | none => err .valueError
+    | _, _, _, _ => bad "C07: sampled_range_indices arguments"
+  | [Json.str "sampled_position_at", off, si, idx] =>
+    match jOff? off, jRat? si, jInt? idx with
+    | some off, some si, some idx => outRat (.ok (sampledPositionAt off si idx))
+    | _, _, _ => bad "C07: sampled_position_at arguments"
+  | [Json.str "sampled_axis", off, si, count, start, sp] =>
+    match jOff? off, jRat? si, jInt? count, jOptInt? start, jOptRat? sp with
+    | some off, some si, some count, some start, some sp => outRats (sampledAxis off si count start sp)
+    | _, _, _, _, _ => bad "C07: sampled_axis arguments"
+  | [Json.str "range_index_of", ticks, pos, mode] =>
+    match jRats? ticks, jRat? pos with
+    | some ticks, some pos => outInt (rangeIndexOf ticks pos (jMode mode))
+    | _, _ => bad "C07: range_index_of arguments"
+  | [Json.str "range_range_indices", ticks, s, e, sm] =>
+    match jRats? ticks, jRat? s, jRat? e with
+    | some ticks, some s, some e =>
+      match jSlice? sm with
+      | some sm => outPair (rangeRangeIndices ticks s e sm)
+      | none => err .valueError
+    | _, _, _ => bad "C07: range_range_indices arguments"
+  | [Json.str "range_tick_at", ticks, idx] =>
+    match jRats? ticks, jInt? idx with
+    | some ticks, some idx => outRat (rangeTickAt ticks idx)
+    | _, _ => bad "C07: range_tick_at arguments"
+  | [Json.str "range_axis", ticks, count, start] =>
+    match jRats? ticks, jInt? count, jInt? start with
+    | some ticks, some count, some start => outRats (rangeAxis ticks count start)
+    | _, _, _ => bad "C07: range_axis arguments"
+  | [Json.str "set_index_of", n, pos, mode] =>
+    match jInt? n, jRat? pos with
+    | some n, some pos => if n < 0 then bad "C07: negative label count" else outInt (setIndexOf n.toNat pos (jMode mode))
+    | _, _ => bad "C07: set_index_of arguments"
+  | [Json.str "set_range_indices", n, s, e, sm] =>
+    match jInt? n, jRat? s, jRat? e with
+    | some n, some s, some e =>
+      if n < 0 then bad "C07: negative label count" else
+      match jSlice? sm with
+      | some sm => outPair (setRangeIndices n.toNat s e sm)
+      | none => err .valueError
+    | _, _, _ => bad "C07: set_range_indices arguments"
+  | _ => bad "C07: unknown op"
+
+def main : IO Unit := pureLoop handle
 
 end Driver.C07
